@@ -18,6 +18,15 @@
 //
 // All ordinates are integers with |c| <= 1024. A, B and C of one case live on the same small
 // grid, moved by one common offset and one common scale factor. The last line is `#GEN\t{json}`.
+//
+// General-position stream: every 16th case (small inputs only) is mapped by a random similarity
+// (rotation, scale 0.01..1000, translation) evaluated in float64; its class is "f_<class>" and
+// its geometries are printed with lib.Dump (16 hex digits per ordinate). The driver admits such
+// a case only if its exact clearance is at least 1e-6 x magnitude.
+//
+// Class gc_overlap builds collections whose areal members overlap (a hole of one member covered
+// by another member): Intersects/Distance are right there, the overlay-based Disjoint and
+// Intersection are not (known finding F20).
 package main
 
 import (
@@ -1372,6 +1381,43 @@ func (g *gen) clsEmpties() (*sh, *sh) {
 // coll: both operands are GeometryCollections.
 func (g *gen) clsColl() (*sh, *sh) { return g.coll(0), g.coll(0) }
 
+// gc_overlap: A is a collection whose areal members OVERLAP: a square with a hole plus a second
+// polygon that covers the hole (the same shell without the hole, a larger rectangle, or a
+// rectangle that covers only part of the hole); B lies inside the hole box. The point sets
+// intersect whenever B meets the cover. (Overlay-based operations mislabel such collections: known
+// finding F20; Intersects and Distance do not use the overlay.)
+func (g *gen) clsGCOverlap() (*sh, *sh) {
+	r := g.r
+	kb, db := g.pickKind(7)
+	S := r.Range(7, 8)
+	hx0, hy0, hx1, hy1 := r.Range(1, 2), r.Range(1, 2), r.Range(S-2, S-1), r.Range(S-2, S-1)
+	hole := rectOpen(hx0, hy0, hx1, hy1)
+	holed := polySh(g.finishRing(rectOpen(0, 0, S, S)), g.finishRing(hole))
+	var cover *sh
+	switch r.Intn(4) {
+	case 0: // the same shell, no hole
+		cover = polySh(g.finishRing(rectOpen(0, 0, S, S)))
+	case 1: // a larger rectangle
+		cover = polySh(g.finishRing(rectOpen(-1, -1, S+1, S+1)))
+	case 2: // exactly the hole
+		cover = polySh(g.finishRing(hole))
+	default: // part of the hole and part of the ring around it
+		cover = polySh(g.finishRing(rectOpen(hx0-1, hy0-1, (hx0+hx1)/2, hy1+1)))
+	}
+	kids := []*sh{holed, cover}
+	if r.Chance(1, 3) {
+		kids = append(kids, g.empty(lib.Kind(r.Intn(7)), 2))
+	}
+	shuffle(r, kids)
+	a := multiSh(lib.KColl, kids...)
+	if r.Chance(1, 4) {
+		a = multiSh(lib.KColl, a)
+	}
+	b := g.baseIn(db, hx0+1, hy0+1, hx1-1, hy1-1)
+	fx := maxX(a, b) + 2
+	return a, g.wrap(b, kb, fx+6)
+}
+
 // ---------------------------------------------------------------- one case
 
 type class struct {
@@ -1397,6 +1443,7 @@ var classes = []class{
 	{"same", 6, true, (*gen).clsSame},
 	{"empties", 7, false, (*gen).clsEmpties},
 	{"coll", 8, false, (*gen).clsColl},
+	{"gc_overlap", 4, false, (*gen).clsGCOverlap},
 }
 
 // symmetry applies one random symmetry of the common bounding box (flips, transposition) to all
@@ -1523,11 +1570,39 @@ func main() {
 			}
 			return geom.DimXY
 		}
-		ga := toNode(a, ct(), r).Build()
-		gb := toNode(b, ct(), r).Build()
-		gc := toNode(c, ct(), r).Build()
+		na, nb, nc := toNode(a, ct(), r), toNode(b, ct(), r), toNode(c, ct(), r)
+		// general-position stream (every 16th case, small inputs only): the lattice case is mapped by
+		// a random similarity evaluated in float64, so the ordinates are arbitrary doubles; exact
+		// incidences become sub-tolerance near-incidences, which the driver's exact clearance test
+		// excludes, as the quantifier of the property says. Such cases are dumped with hex ordinates.
+		dump, cname := zDump, cl.name
+		if i%16 == 15 && len(a.segs())+len(b.segs())+len(c.segs()) <= 24 {
+			th := 2 * math.Pi * float64(r.Intn(1<<20)) / float64(1<<20)
+			sc := math.Pow(10, float64(r.Range(-20, 30))/10)
+			tx := sc * float64(r.Range(-1000, 1000)) * 1.1
+			ty := sc * float64(r.Range(-1000, 1000)) * 0.9
+			co, si := math.Cos(th), math.Sin(th)
+			var tr func(n *lib.Node)
+			tr = func(n *lib.Node) {
+				for k := range n.C {
+					x, y := n.C[k][0], n.C[k][1]
+					n.C[k][0] = sc*(x*co-y*si) + tx
+					n.C[k][1] = sc*(x*si+y*co) + ty
+				}
+				for _, kid := range n.Kids {
+					tr(kid)
+				}
+			}
+			tr(na)
+			tr(nb)
+			tr(nc)
+			dump, cname = lib.Dump, "f_"+cl.name
+		}
+		ga := na.Build()
+		gb := nb.Build()
+		gc := nc.Build()
 		fields := []string{
-			strconv.Itoa(i), cl.name, zDump(ga), zDump(gb), zDump(gc),
+			strconv.Itoa(i), cname, dump(ga), dump(gb), dump(gc),
 			obsValid(ga) + obsValid(gb) + obsValid(gc),
 			obsEmpty(ga) + obsEmpty(gb) + obsEmpty(gc),
 			obsIntersects(ga, gb), obsIntersects(gb, ga),
@@ -1537,7 +1612,7 @@ func main() {
 		}
 		fmt.Fprintln(w, strings.Join(fields, "\t"))
 		// distribution
-		nClass[cl.name]++
+		nClass[cname]++
 		nPair[lib.KindTag[a.kind]+"-"+lib.KindTag[b.kind]]++
 		nSize[bucket(len(a.segs())+len(b.segs()))]++
 		emptyAB := fields[6][0] == '1' || fields[6][1] == '1'
